@@ -42,7 +42,7 @@ def groups(tier, seed):
         for nm, fn, enf in (("spread", "m4ri_spread_bits", "m4ri_spread_bits"), ("shrink", "m4ri_shrink_bits", "m4ri_shrink_bits"),
                             ("spread_inv", "m4ri_spread_bits o m4ri_shrink_bits (mutually inverse)", None)):
             gs.append(Group(gid="C19.word.%s.len%d" % (nm, ln), props=P, harness="c19.c", function=fn, layer="P", defines={"H_" + nm.upper(): None, "LEN": ln},
-                            enforce=[enf] if enf else [], unwind=17, bounded=False, bound_note="(length enumerated 1..16: complete; the only loop is the harness's 16-step construction of Q)", timeout=600, shape="length=%d" % ln))
+                            enforce=[enf] if enf else [], unwind=17, bounded=False, solver="--sat-solver cadical", bound_note="(length enumerated 1..16: complete; the only loop is the harness's 16-step construction of Q)", timeout=600, shape="length=%d" % ln))
     w("spread_abort", "m4ri_spread_bits/m4ri_shrink_bits (length outside 1..16)")
     w("gray", "m4ri_gray_code", unwind=18, note="(loop bounded by l<=16, complete)", tus=["graycode"])
     w("graycf", "m4ri_gray_code (closed form helper contract)", "m4ri_gray_code", unwind=18, note="(loop bounded by l<=16, complete)", tus=["graycode"])
